@@ -397,39 +397,75 @@ func concChild(args []string) int {
 			}
 		}
 	}
-	// last burst on DIFFERENT bugs (edits of one bug are serialised by the bug's own lock): every worker edits and
+	// bursts on DIFFERENT bugs (edits of one bug are serialised by the bug's own lock): every worker edits and
 	// commits its private bug at the same instant, then everybody stops. The notifications overlap, each rewrites the
-	// cache file; the file left behind is what the next process loads, compared with a rebuild by the parent.
+	// cache file; the file left behind is what the next process loads: the cache is closed and opened again from it
+	// and every excerpt must describe its bug as stored (a newer write overtaken by an older one shows here). The
+	// last round is left to the parent's comparison with a rebuilt cache.
 	if cfg.CommitAll && cfg.Private && cfg.CacheSize >= 100 {
-		var bw sync.WaitGroup
-		gate := make(chan struct{})
-		for w := 0; w < cfg.Workers; w++ {
-			bw.Add(1)
-			go func(w int) {
-				defer bw.Done()
-				<-gate
-				for k := 0; k < 2; k++ {
-					m := newMarker(w)
-					ev := ConcEvent{W: w, Op: "comment", Bug: private[w].String(), Marker: m, Call: now()}
-					b, err := c.Bugs().Resolve(private[w])
-					if err == nil {
-						_, _, err = b.AddComment("comment " + m)
-					}
-					ev.Ret = now()
-					ev.Ok = err == nil
-					if err != nil {
-						ev.Err = errClass(err)
+		rounds := 6
+		for round := 0; round < rounds; round++ {
+			var bw sync.WaitGroup
+			gate := make(chan struct{})
+			cc := c
+			for w := 0; w < cfg.Workers; w++ {
+				bw.Add(1)
+				go func(w int) {
+					defer bw.Done()
+					<-gate
+					for k := 0; k < 2; k++ {
+						m := newMarker(w)
+						ev := ConcEvent{W: w, Op: "comment", Bug: private[w].String(), Marker: m, Call: now()}
+						b, err := cc.Bugs().Resolve(private[w])
+						if err == nil {
+							_, _, err = b.AddComment("comment " + m)
+						}
+						ev.Ret = now()
+						ev.Ok = err == nil
+						if err != nil {
+							ev.Err = errClass(err)
+							record(ev)
+							return
+						}
+						cerr := b.CommitAsNeeded()
+						ev.Acked = cerr == nil
 						record(ev)
-						return
 					}
-					cerr := b.CommitAsNeeded()
-					ev.Acked = cerr == nil
-					record(ev)
+				}(w)
+			}
+			close(gate)
+			bw.Wait()
+			if round == rounds-1 {
+				break
+			}
+			if err := c.Close(); err != nil {
+				record(ConcEvent{W: -1, Op: "close", Err: errClass(err)})
+				return emit()
+			}
+			nc, err := cache.NewRepoCacheNoEvents(rep.Repo)
+			if err != nil {
+				record(ConcEvent{W: -1, Op: "close", Err: "reopen: " + errClass(err)})
+				return emit()
+			}
+			c = nc
+			for _, id := range c.Bugs().AllIds() {
+				ex, err := c.Bugs().ResolveExcerpt(id)
+				if err != nil {
+					continue
 				}
-			}(w)
+				fresh, err := world.ReadBug(rep.Repo, id)
+				if err != nil {
+					continue
+				}
+				snap := fresh.Compile()
+				if ex.LenComments != len(snap.Comments) || uint64(ex.EditLamportTime) != uint64(fresh.EditLamportTime()) {
+					record(ConcEvent{W: -1, Op: "quiescent-check", Bug: id.String(),
+						Err: fmt.Sprintf("cache file left behind by burst %d: after closing and re-opening the cache the excerpt of %s says %d comments / edit time %d, the stored bug has %d comments / edit time %d", round, id.Human(), ex.LenComments, ex.EditLamportTime, len(snap.Comments), fresh.EditLamportTime())})
+				} else {
+					record(ConcEvent{W: -1, Op: "quiescent-check", Bug: id.String(), Ok: true})
+				}
+			}
 		}
-		close(gate)
-		bw.Wait()
 	}
 	// commit whatever was left staged, then a final read through the cache
 	for _, id := range c.Bugs().AllIds() {
